@@ -122,6 +122,12 @@ func c10W1(c *mon.Ctx, G, procs int) {
 					}
 				case 1:
 					_ = reg.Sources()
+					_ = reg.CertificateLints().Names()
+					_ = reg.RevocationListLints().Names()
+					_ = reg.OcspResponseLints().Names()
+					_ = reg.CertificateLints().Sources()
+					_ = reg.RevocationListLints().Sources()
+					_ = reg.OcspResponseLints().Sources()
 				case 2:
 					n := Inv[rng.Intn(len(Inv))].Name
 					_ = reg.CertificateLints().ByName(n)
